@@ -196,6 +196,9 @@ func (v Val) Tokens() []string {
 	case KStr, KPStr, KNullStr, KValuer, KPValuer, KBytes:
 		return []string{tokenOf(v.S)}
 	case KInt, KI64, KUint, KPI64, KNullI64:
+		if v.I < 1000000 {
+			return nil // small keys of seeded rows are not sentinels
+		}
 		return []string{strconv.FormatInt(v.I, 10)}
 	case KF64:
 		return []string{strconv.FormatInt(int64(v.F), 10)}
